@@ -663,7 +663,8 @@ func (ic *Context) AddNotification(hash util.Uint160, name string, item *stackit
 	ic.Notifications = append(ic.Notifications, state.NotificationEvent{
 		ScriptHash: hash,
 		Name:       name,
-		Item:       item,
+		// Contracts can get it via System.Runtime.GetNotifications, it must not be changed by them.
+		Item: stackitem.DeepCopy(item, true).(*stackitem.Array),
 	})
 	return nil
 }
